@@ -19,6 +19,7 @@ import (
 	"github.com/protobom/protobom/pkg/sbom"
 
 	"mcverif/engine"
+	"mcverif/props/c05"
 	"mcverif/jsonfault"
 	"mcverif/rw"
 )
@@ -311,7 +312,25 @@ func growth(c *engine.Ctx, name string, root *jsonfault.Node, paths []jsonfault.
 	}
 }
 
+// referenceGraphs: totality on reference structures a schema fault cannot build: every small SPDX relationship graph
+// (cycles, mutual containment, no declared root), generated by C05's generator.
+func referenceGraphs(c *engine.Ctx) {
+	c.Group("spdx-reference-graphs")
+	maxRel := 2
+	if c.Thorough() {
+		maxRel = 3
+	}
+	c.Bound("spdx-reference-graphs", fmt.Sprintf("packages a, b and file c; every relationship list of <=%d over {CONTAINS, CONTAINED_BY, DEPENDS_ON, DESCRIBES} x endpoints x documentDescribes {absent,[a]} x hasFiles, through detection, ParseStream and every explicit format", maxRel))
+	c05.SPDXReferenceGraphs(maxRel, func(desc map[string]any, text string, _ map[string]int, _ bool) {
+		c.Case(func() any { return desc }, func(t *engine.T) *engine.Violation {
+			t.State(text)
+			return probe(t, []byte(text), false)
+		})
+	})
+}
+
 func Run(c *engine.Ctx) {
+	referenceGraphs(c)
 	rw.SilenceStdout()
 	faults := jsonfault.Faults()
 	var light []jsonfault.Fault
